@@ -6,9 +6,26 @@ JUDGED = {"stopped", "advance", "extra_event", "missing_event", "returned", "fin
           "printed", "final_printed", "vars", "final_vars", "k", "raised", "scan_count", "match_count"}
 
 
+def lookahead_probe(rep):
+    """C13's statement (no later component runs after skip() fires) is broken through the onmatch look-ahead: listed finding."""
+    import os
+    from lib import runner, scratch
+
+    scratch.enter_scratch()
+    path = os.path.join(scratch.scratch_dir(), "la.csv")
+    runner.write_csv(path, [["a", "b"], ["1", "x"], ["7", "y"], ["2", "z"]])
+    out = runner.run_standalone(f'${path}[1*][ @c.onmatch = count() skip(#0 == 7) push("s", #1) ]', events=[])
+    p = out["csvpath"]
+    pushed = list(p.variables.get("s", []))
+    if out["raised"] or pushed != ["x", "z"] or p.match_count != 2:
+        rep.violation({"kind": "lookahead-ignores-skip", "csvpath": '$la.csv[1*][ @c.onmatch = count() skip(#0 == 7) push("s", #1) ]',
+                       "expected": {"s": ["x", "z"], "match_count": 2}, "got": {"s": pushed, "match_count": p.match_count, "raised": out["raised"]}},
+                      finding="C13-lookahead-ignores-skip-and-stop")
+
+
 def main(tier):
     n = 700 if tier == "quick" else 12000
-    return runfam.run(PID, tier, groups=("core", "control"), judged=JUDGED, ncases=n, seed_salt=1300, pre=lambda rep: mcrun.run_pool(rep, tier, {"returned", "unmatched", "vars", "printed", "matchCount", "scanCount"}, PID))
+    return runfam.run(PID, tier, groups=("core", "control"), judged=JUDGED, ncases=n, seed_salt=1300, pre=lambda rep: (lookahead_probe(rep), mcrun.run_pool(rep, tier, {"returned", "unmatched", "vars", "printed", "matchCount", "scanCount"}, PID)))
 
 
 def replay(path):
